@@ -444,3 +444,112 @@ Example ex_parse :
   parse_uint [x2d;x31] = (0, PSyntax) /\ parse_uint [x31;x65;x33] = (0, PSyntax) /\
   parse_uint [x30;x30;x37] = (7, PNone) /\ parse_uint str_max = (MaxU64, PNone).
 Proof. vm_compute. repeat split. Qed.
+
+(* ------------------------------------------------------------------ one connection, several POST /auth *)
+
+Lemma reauth_does_not_renegotiate c st rq :
+  cs_auth st = true ->
+  serve_auth c st rq = (st, R233 (mkResp (s_max_rx c) (s_ignore c))).
+Proof. intros H. unfold serve_auth. rewrite H. reflexivity. Qed.
+
+Lemma run_authenticated_frozen c st : forall rqs,
+  cs_auth st = true ->
+  serve_run c st rqs = (st, map (fun _ => (R233 (mkResp (s_max_rx c) (s_ignore c)), cs_installed st)) rqs).
+Proof.
+  induction rqs as [|rq t IH]; intros H; [reflexivity|].
+  cbn [serve_run map]. rewrite (reauth_does_not_renegotiate c st rq H).
+  rewrite (IH H). reflexivity.
+Qed.
+
+Lemma serve_run_app c : forall a st b,
+  serve_run c st (a ++ b) =
+  (fst (serve_run c (fst (serve_run c st a)) b), snd (serve_run c st a) ++ snd (serve_run c (fst (serve_run c st a)) b)).
+Proof.
+  induction a as [|rq t IH]; intros st b.
+  - cbn. destruct (serve_run c st b); reflexivity.
+  - cbn [app serve_run]. destruct (serve_auth c st rq) as [st1 rp].
+    rewrite (IH st1 b). destruct (serve_run c st1 t) as [st2 rps]. cbn [fst snd].
+    destruct (serve_run c st2 b) as [st3 rps']. reflexivity.
+Qed.
+
+Lemma auth_tx_is_declared c vals : so_auth_tx (server_auth c vals) = req_from_header vals.
+Proof. unfold server_auth. destruct (server_decide c (req_from_header vals)). reflexivity. Qed.
+
+Lemma resp_is_configured c vals : so_resp (server_auth c vals) = mkResp (s_max_rx c) (s_ignore c).
+Proof. unfold server_auth. destruct (server_decide c (req_from_header vals)). reflexivity. Qed.
+
+Lemma run_rejected_prefix c : forall pre st,
+  cs_auth st = false -> Forall (fun r : auth_req => snd r = false) pre ->
+  let st' := fst (serve_run c st pre) in
+  cs_auth st' = false /\ cs_installed st' = cs_installed st /\ cs_connects st' = cs_connects st /\
+  cs_authcalls st' = cs_authcalls st ++ map (fun r : auth_req => req_from_header (fst r)) pre /\
+  snd (serve_run c st pre) = map (fun _ => (RMasq, cs_installed st)) pre.
+Proof.
+  induction pre as [|rq t IH]; intros st Ha Hf.
+  - cbn. rewrite app_nil_r. repeat split; auto.
+  - inversion Hf as [|? ? Hrq Ht]; subst.
+    set (st1 := mkConn false (cs_installed st) (cs_connects st) (cs_authcalls st ++ [so_auth_tx (server_auth c (fst rq))])).
+    assert (E : serve_auth c st rq = (st1, RMasq)) by (unfold serve_auth; rewrite Ha, Hrq; reflexivity).
+    specialize (IH st1 eq_refl Ht). cbn zeta in IH.
+    cbn zeta. cbn [serve_run]. rewrite E.
+    destruct (serve_run c st1 t) as [st2 rps]. cbn [fst snd] in *.
+    destruct IH as (I1 & I2 & I3 & I4 & I5).
+    repeat split; try assumption.
+    + rewrite I4. subst st1. cbn [cs_authcalls map]. rewrite <- app_assoc, auth_tx_is_declared. reflexivity.
+    + cbn [map]. rewrite I5. reflexivity.
+Qed.
+
+Lemma set_cc_default i : set_cc IDefault i = i.
+Proof. destruct i; reflexivity. Qed.
+
+Lemma first_accepted_auth_decides c pre vals post :
+  Forall (fun r : auth_req => snd r = false) pre ->
+  let r := serve_run c conn_init (pre ++ (vals, true) :: post) in
+  let so := server_auth c vals in
+  cs_auth (fst r) = true /\
+  cs_installed (fst r) = so_installed so /\
+  cs_connects (fst r) = [so_connect_tx so] /\
+  cs_authcalls (fst r) = map (fun r : auth_req => req_from_header (fst r)) pre ++ [so_auth_tx so] /\
+  snd r = map (fun _ => (RMasq, IDefault)) pre ++
+          (R233 (so_resp so), so_installed so) ::
+          map (fun _ => (R233 (so_resp so), so_installed so)) post.
+Proof.
+  intros Hf. cbn zeta. rewrite serve_run_app.
+  destruct (run_rejected_prefix c pre conn_init eq_refl Hf) as (P1 & P2 & P3 & P4 & P5).
+  cbn [fst snd]. rewrite P5.
+  set (st0 := fst (serve_run c conn_init pre)) in *.
+  set (so := server_auth c vals).
+  set (st1 := mkConn true (set_cc (cs_installed st0) (so_installed so)) (cs_connects st0 ++ [so_connect_tx so])
+                     (cs_authcalls st0 ++ [so_auth_tx so])).
+  assert (E : serve_auth c st0 (vals, true) = (st1, R233 (so_resp so)))
+    by (unfold serve_auth; rewrite P1; reflexivity).
+  cbn [serve_run]. rewrite E.
+  rewrite (run_authenticated_frozen c st1 post eq_refl). cbn [fst snd].
+  subst st1. cbn [cs_auth cs_installed cs_connects cs_authcalls].
+  rewrite P2, P3, P4. cbn [conn_init cs_installed cs_connects cs_authcalls app].
+  rewrite set_cc_default. subst so. rewrite !resp_is_configured.
+  repeat split; reflexivity.
+Qed.
+
+(* with the reported = enforced clause of the single request: after ANY history of auth requests on a connection,
+   the one Connect event and the controller on the connection are those of the first accepted request *)
+Lemma connection_reported_is_enforced c pre vals post :
+  Forall (fun r : auth_req => snd r = false) pre ->
+  let st := fst (serve_run c conn_init (pre ++ (vals, true) :: post)) in
+  let so := server_auth c vals in
+  (forall r, so_decision so = Brutal r -> r < 9223372036854775808) ->
+  exists tx, cs_connects st = [tx] /\ enforced_as_reported (so_decision so) (s_type c) (cs_installed st) tx.
+Proof.
+  intros Hf. cbn zeta. intros Hb.
+  destruct (first_accepted_auth_decides c pre vals post Hf) as (_ & H2 & H3 & _).
+  cbn zeta in H2, H3. exists (so_connect_tx (server_auth c vals)). split; [exact H3|].
+  rewrite H2. exact (proj2 (proj2 (server_reported_is_enforced c vals)) Hb).
+Qed.
+
+(* non-vacuity: 1 MB/s, then 50 MB/s and 0 on the same connection *)
+Lemma reauth_example :
+  let c := mkSrv false 0 0 TBbr in
+  let r := serve_run c conn_init [([[x31;x30;x30;x30;x30;x30;x30]], true); ([[x35;x30;x30;x30;x30;x30;x30;x30]], true); ([[x30]], true)] in
+  cs_connects (fst r) = [1000000] /\ cs_installed (fst r) = IBrutal 1000000 /\
+  map snd (snd r) = [IBrutal 1000000; IBrutal 1000000; IBrutal 1000000].
+Proof. vm_compute. repeat split; reflexivity. Qed.
